@@ -30,16 +30,17 @@ func c04Tilings(c *core.Ctx) []c04Tiling {
 		{"wedges-4x42", lattice.Wedges(4, 20)},
 		{"wedges-7x66", lattice.Wedges(7, 32)},
 	}
+	ts = append(ts, c04Tiling{"cells-level-3", lattice.CellLoops(3)}, c04Tiling{"wedges-5x102", lattice.Wedges(5, 50)})
 	if !c.Quick() {
-		ts = append(ts, c04Tiling{"cells-level-3", lattice.CellLoops(3)}, c04Tiling{"wedges-5x102", lattice.Wedges(5, 50)})
+		ts = append(ts, c04Tiling{"cells-level-4", lattice.CellLoops(4)}, c04Tiling{"wedges-9x42", lattice.Wedges(9, 20)}, c04Tiling{"wedges-2x82", lattice.Wedges(2, 40)})
 	}
 	return ts
 }
 
 func c04Catalogue(c *core.Ctx) []lattice.NamedLoop {
-	ns := core.Pick(c, []int{3, 4, 32, 33, 40}, []int{3, 4, 8, 31, 32, 33, 40, 64, 100})
-	centres := core.Pick(c, []string{"face-centre", "cube-corner", "north-pole", "generic"}, []string{"face-centre", "face-edge", "cube-corner", "north-pole", "generic", "south-ish"})
-	radii := core.Pick(c, []float64{1e-3, 0.5, 1.5707963267948966 - 1e-3, 2}, []float64{1e-7, 1e-3, 0.1, 1, 1.5707963267948966 - 1e-3, 1.5707963267948966, 2})
+	ns := core.Pick(c, []int{3, 4, 8, 32, 33, 40, 64}, []int{3, 4, 5, 8, 16, 31, 32, 33, 34, 40, 64, 100, 200})
+	centres := core.Pick(c, []string{"face-centre", "face-edge", "cube-corner", "north-pole", "generic"}, []string{"face-centre", "face-edge", "cube-corner", "north-pole", "generic", "south-ish"})
+	radii := core.Pick(c, []float64{1e-7, 1e-3, 0.5, 1.5707963267948966 - 1e-3, 2}, []float64{1e-9, 1e-7, 1e-5, 1e-3, 0.1, 1, 1.5707963267948966 - 1e-3, 1.5707963267948966, 1.5707963267948966 + 1e-3, 2, 3})
 	cat := lattice.RegularLoops(ns, centres, radii)
 	cat = append(cat, lattice.Wedges(4, 20)[:2]...)
 	cat = append(cat, lattice.CellLoops(1)[:6]...)
